@@ -210,7 +210,7 @@ class TopoRunner:
     # ------------------------------------------------------------------------------------------- execution
     HANDLE_ARGS = {"Connect": ("s",), "Disconnect": ("s",), "AddInterface": ("s",), "Peer": ("a", "b"), "Unpeer": ("a", "b"),
                    "AddSubInterface": ("i",), "RemoveSubInterface": ("i",)}
-    OBSERVERS = ("Views", "HandleIfs", "ConstraintTables", "Collect", "Tally")
+    OBSERVERS = ("Views", "HandleIfs", "ConstraintTables", "Collect", "Tally", "Navigate")
 
     def apply(self, o):
         """handles stay alive only across consecutive calls made through them: any other mutating call drops them
@@ -468,6 +468,49 @@ class TopoRunner:
             fresh = self.elem(o["p"], persistent=False)
             names = sorted(i.name for i in fresh.interface_list)
             return {"k": "ifs", "cached": names, "fresh": names}
+        if op == "Navigate":
+            self.need(o["p"])
+            e = self.elem(o["p"], persistent=False)
+            gm = t.graph_model
+            P = self._paths
+
+            def pth(x):
+                return "" if x is None else P.get(x.node_id, "?" + str(getattr(x, "name", x)))
+            cls = gm.get_node_properties(node_id=e.node_id)[0][0]
+            comps, svcs, ifs, ok = [], [], [], True
+
+            def names(ids):
+                return sorted(gm.get_node_properties(node_id=i)[1].get("Name") for i in ids)
+            if cls == "NetworkNode":
+                cids = gm.get_first_neighbor(node_id=e.node_id, rel="has", node_label="Component")
+                comps = names(cids)
+                if hasattr(gm, "get_all_network_node_components"):
+                    ok = ok and sorted(gm.get_all_network_node_components(parent_node_id=e.node_id)) == sorted(cids)
+                    for c in cids:
+                        nm = gm.get_node_properties(node_id=c)[1].get("Name")
+                        ok = ok and (comps.count(nm) > 1 or gm.find_component_by_name(parent_node_id=e.node_id, component_name=nm) == c)
+            if cls in ("NetworkNode", "Component"):
+                sids = gm.get_first_neighbor(node_id=e.node_id, rel="has", node_label="NetworkService")
+                svcs = names(sids)
+                if hasattr(gm, "find_ns_by_name"):
+                    for s_ in sids:
+                        nm = gm.get_node_properties(node_id=s_)[1].get("Name")
+                        ok = ok and (svcs.count(nm) > 1 or gm.find_ns_by_name(parent_node_id=e.node_id, nsname=nm) == s_)
+            if cls in ("NetworkService", "Link"):
+                iids = gm.get_all_ns_or_link_connection_points(link_id=e.node_id)
+                ifs = names(iids)
+                if hasattr(gm, "find_connection_point_by_name"):
+                    for i_ in iids:
+                        nm = gm.get_node_properties(node_id=i_)[1].get("Name")
+                        ok = ok and (ifs.count(nm) > 1 or gm.find_connection_point_by_name(parent_node_id=e.node_id, iname=nm) == i_)
+            if cls == "ConnectionPoint":
+                iids = [i for i in gm.get_all_child_connection_points(interface_id=e.node_id)
+                        if P.get(i, "").startswith(o["p"] + "/")] if gm.get_node_properties(node_id=e.node_id)[1].get("Type") != "SubInterface" else []
+                ifs = names(iids)
+            if cls == "NetworkNode" and hasattr(gm, "find_node_by_name") and e.name in t.nodes:
+                ok = ok and gm.find_node_by_name(node_name=e.name, label="NetworkNode") == e.node_id
+            return {"k": "nav", "parent": pth(t.get_parent_element(e)), "owner": pth(t.get_owner_node(e)),
+                    "comps": comps, "svcs": svcs, "ifs": ifs, "lookups_ok": bool(ok)}
         raise ValueError("unknown abstract op " + op)
 
 
